@@ -114,8 +114,10 @@ theorem C11_update_every_iteration (sz : Sizes) (C : Crypto) (s : Srv) (tq ts : 
   generalize handleItems sz C tq s batch acts = r1 at h1
   obtain ⟨s1, acts1, e1⟩ := r1
   simp only at h1 ⊢
-  have h2 := sweepConns_no_update C sz ts s1 s1.conns (nextAct acts1).2
-  generalize sweepConns C sz ts s1 s1.conns (nextAct acts1).2 = r2 at h2
+  have h2 := sweepConns_no_update C sz ts (if (nextAct acts1).1 = HAct.kick then kickAll s1 else s1)
+    (if (nextAct acts1).1 = HAct.kick then kickAll s1 else s1).conns (nextAct acts1).2
+  generalize sweepConns C sz ts (if (nextAct acts1).1 = HAct.kick then kickAll s1 else s1)
+    (if (nextAct acts1).1 = HAct.kick then kickAll s1 else s1).conns (nextAct acts1).2 = r2 at h2
   obtain ⟨s2, acts2, e2⟩ := r2
   simp only at h2 ⊢
   have h3 := sweepTemps_no_update C sz ts s2 s2.temps
